@@ -211,7 +211,8 @@ impl Item {
                         let next = Item::contains(items.get(i).unwrap(), pattern, depth);
                         match next {
                             Ok(pattern_idx) => return Ok(pattern_idx),
-                            Err(()) => (),
+                            // Skip the points nested in this element
+                            Err(()) => depth += Item::size(items.get(i).unwrap()) - 1,
                         }
                     }
                 }
